@@ -292,7 +292,9 @@ class Interp:
             if k == 'deref':
                 v = self.deref(v, st)
             elif k == 'field':
-                if isinstance(v, dict):
+                if isinstance(v, dict) and '#closure' in v:
+                    v = v['#caps'][e['i']]
+                elif isinstance(v, dict):
                     if e['name'] not in v:
                         raise Unsupported('field %s of %r' % (e['name'], list(v)))
                     v = v[e['name']]
@@ -692,6 +694,8 @@ class Interp:
         target = c.get('resolved') if c.get('resolved') in self.prog.bodies else (c.get('path') if c.get('path') in self.prog.bodies else None)
         if target is None:
             raise Unsupported('call to %s at %s' % (name, b.where(bb)))
+        if self.prog.bodies[target].kind == 'Closure' and len(args) == 2 and isinstance(args[1], tuple) and len(args[1]) == self.prog.bodies[target].arg_count - 1:
+            args = [args[0]] + list(args[1])
         # pass references: shared -> snapshot, mutable -> cell
         cargs = []
         cells_back = []
@@ -781,7 +785,10 @@ class Interp:
                     bb = t['target']
                     continue
                 if k == 'return':
-                    results.append(Outcome(st.get(0, ()), st['#cells'], None, forked))
+                    rv = st.get(0, ())
+                    if isinstance(rv, Cmp):
+                        rv = Cmp(rv.op, None, None, rv.res)     # operands are locals of this frame
+                    results.append(Outcome(rv, st['#cells'], None, forked))
                     break
                 if k == 'unreachable':
                     break
@@ -994,6 +1001,24 @@ def h_len(I, st, a, t, b):
     return TOP
 
 
+def h_call_closure(I, st, a, t, b):
+    f = a[0]
+    fv = _deref_arg(I, st, f)
+    while isinstance(fv, tuple) and fv and fv[0] in ('ref', 'refval', 'mref'):
+        fv = I.deref(fv, st)
+    if not (isinstance(fv, dict) and '#closure' in fv):
+        raise Unsupported('call of non-closure %r' % (fv,))
+    args = [('refval', fv, ())] + list(a[1])
+    sub = Interp(I.prog, I.handlers, I.fuel, I.max_paths)
+    sub.steps = I.steps
+    sub.depth = I.depth + 1
+    outs = sub.run(fv['#closure'], args)
+    I.steps = sub.steps
+    if len(outs) == 1:
+        return outs[0].ret
+    return Fork([o.ret for o in outs])
+
+
 def h_deref_identity(I, st, a, t, b):
     return a[0]
 
@@ -1012,5 +1037,6 @@ BUILTINS = {
     'Iterator::rev': h_rev, 'Iterator::enumerate': h_enumerate, 'Iterator::next': h_next,
     'Vec::len': h_len, 'slice::len': h_len, 'HashSet::len': h_len,
     'Clone::clone': h_clone,
+    'Fn::call': h_call_closure, 'FnMut::call_mut': h_call_closure, 'FnOnce::call_once': h_call_closure,
     'Deref::deref': h_deref_identity, 'DerefMut::deref_mut': h_deref_identity, 'AsRef::as_ref': h_deref_identity,
 }
